@@ -81,6 +81,16 @@ def eval_case(case: dict) -> dict:
     exc_info = None
     try:
         pcfg = shellbuild.make_ports_cfg(enc)
+        if zlib.crc32(json.dumps(case, sort_keys=True, default=str).encode()) % 2:
+            # one rule object looped over several components: it has matched another
+            # component's ports (and possibly refused them) before it meets these
+            for decoy in (({'QZdecoy'}, {'QZother'}),
+                          (set(case['requires']), set(case['provides'] + case['injected']))):
+                try:
+                    pcfg.match(*decoy)
+                except Exception:  # pylint: disable=broad-except
+                    pass
+            cnt['ports_cfg_object_matched_other_ports_first'] = 1
         matched = pcfg.match(set(case['provides']), set(case['requires'] + case['injected']))
         got_map = {k: ('STS' if v.name == 'STS' else 'MTS') for k, v in matched.value.items()}
         cnt['match_calls'] = 1
@@ -98,7 +108,7 @@ def eval_case(case: dict) -> dict:
                 from dznpy.adv_shell import Builder  # pylint: disable=import-outside-toplevel
                 builder = Builder()
                 _SHARED[shape] = (fc, builder)
-            files = shellbuild.build_files(enc, fc, builder=builder)
+            files = shellbuild.build_files(enc, fc, builder=builder, ports_cfg=pcfg)
             cnt['builds'] = 1
     except Exception as exc:  # pylint: disable=broad-except
         exc_info = common.classify_exception(exc)
@@ -293,7 +303,8 @@ def main(tier: str) -> int:
                 "side's names + one unknown name + (requires side) one injected name) for one "
                 'side against every component shape, at match and at build level, with the other '
                 f'side fixed to a valid selection; names per side <= {2 if tier == "quick" else 3}'}
-    run.require('match_calls', 'builds', 'builds_on_reused_builder_and_model', 'headers_inspected', 'ref_accept', 'ref_reject',
+    run.require('match_calls', 'builds', 'builds_on_reused_builder_and_model',
+                'ports_cfg_object_matched_other_ports_first', 'headers_inspected', 'ref_accept', 'ref_reject',
                 'configured_via_preset_all_mts', 'configured_via_preset_all_sts',
                 'configured_via_preset_all_sts_all_mts', 'configured_via_preset_all_mts_all_sts',
                 'configured_via_preset_all_mts_mixed_ts', 'configured_via_preset_all_sts_mixed_ts',
